@@ -398,11 +398,11 @@ def http_connect(port, target, early=b'', host='127.0.0.1', extra_headers=b'', t
 def socks5_addr(host, port):
     try:
         return b'\x01' + socket.inet_aton(host) + struct.pack('>H', port)
-    except OSError:
+    except (OSError, ValueError, TypeError):
         pass
     try:
         return b'\x04' + socket.inet_pton(socket.AF_INET6, host) + struct.pack('>H', port)
-    except OSError:
+    except (OSError, ValueError, TypeError):
         pass
     hb = host.encode() if isinstance(host, str) else host
     return b'\x03' + bytes([len(hb)]) + hb + struct.pack('>H', port)
